@@ -58,6 +58,8 @@ Event(e) ==
        [] e.ev = "apierror" /\ e.call \in {"searcher", "refresh"} /\ ~isW /\ r[p].failed -> Skip
        [] e.ev = "apierror" -> Reject("api-call-raised-" \o e.call)
        [] e.ev = "unlock" -> Try(isW /\ G_Unlock(p), WUnlock(p), "unlock-not-allowed-here")
+       \* the temporary directory of an index is shared by its writers (one name): whoever removes it holds the lock
+       [] e.ev = "rmtemp" -> IF isW /\ lock = p THEN Skip ELSE Reject("temporary-storage-removed-without-holding-the-lock")
        [] e.ev = "list" ->
             IF ~Listing(e) THEN Reject("directory-listing-differs-from-model")
             ELSE IF isW THEN Skip
